@@ -68,6 +68,12 @@ def stage_a_presentations(m, tier):
         out.append({"events": eo, "rename": True})
         out.append({"events": eo, "shift": 7919})
         out.append({"events": eo, "rename": True, "shift": 86399})
+        # across a day / a leap day / a year boundary
+        out.append({"events": eo, "shift": 86400 * 59 + 86399})
+        out.append({"events": eo, "shift": 86400 * 365 + 86397})
+        for scheme in ("ones", "shared", "numeric", "case"):
+            out.append({"events": eo, "rename": scheme})
+            out.append({"events": eo, "rename": scheme, "jobs": "reversed"})
         for d in (grid(m, 8) if big else range(m)):
             out.append({"events": eo, "dup": d})
     # single events of all jobs in one flat stream, grouped by jobId by the
